@@ -76,6 +76,12 @@ def build_module_case(seed, k):
             if kname in ('WendlandQuintic', 'WendlandQuinticC4',
                          'WendlandQuinticC6') and dim == 1:
                 continue
+            if kname == 'SuperGaussian' and name.endswith(
+                    'MomentumEquationWithStress'):
+                # its artificial stress is pow(W/W(dp), n) with a fractional
+                # n: meaningless (NaN) where the kernel is negative, which
+                # only this kernel is - not a question of symmetry
+                continue
             break
     narr = int(rng.choice([1, 2, 2, 3]))
     return dict(eq=name, dim=dim, kernel=kname, narr=narr, k=k)
